@@ -30,7 +30,8 @@ type c08Handler struct {
 // output shape of the handler function for one message
 //
 //	none | one | two | self (returns the consumed message) | twice (one fresh object twice) | err (error with a message) | mw (no-publisher handler: middleware adds an output)
-var c08Shapes = []string{"none", "one", "two", "self", "twice", "err", "earlyack"}
+//	nouuid (a second output whose UUID is empty)
+var c08Shapes = []string{"none", "one", "two", "self", "twice", "err", "earlyack", "nouuid"}
 
 func c08Options() []c08Handler {
 	var opts []c08Handler
@@ -187,6 +188,10 @@ func c08Run(r *tr.Run, hs []c08Handler, rng *rand.Rand) {
 			case "twice":
 				o := fresh(1)
 				outs = []*message.Message{o, o}
+			case "nouuid":
+				// the second output has no UUID (the application leaves that to its broker): it is handed over as it is
+				o := message.NewMessage("", []byte("p"))
+				outs = []*message.Message{fresh(1), o}
 			case "err":
 				outs = []*message.Message{fresh(1)}
 				err = errScripted
